@@ -25,8 +25,8 @@ LEVEL = "model_checking"
 BYTEMOD = 251
 BW_DEVS_Q = ["n_off_by_one", "flush_drops_tail"]
 BW_DEVS_T = ["n_off_by_one", "flush_drops_tail", "no_compaction", "dup_after_partial", "bypass_nonempty"]
-CS_DEVS_Q = ["nl_first", "bypass_nonempty"]
-CS_DEVS_T = ["nl_first", "nl_sometimes", "no_nl", "bypass_nonempty", "n_off_by_one"]
+CS_DEVS_Q = ["nl_first", "bypass_nonempty", "pfx_stale_long"]
+CS_DEVS_T = ["nl_first", "nl_sometimes", "no_nl", "bypass_nonempty", "n_off_by_one", "pfx_stale_long"]
 
 
 def lens_upto(b):
@@ -75,7 +75,7 @@ def model_check(ctx):
 
     def dev_cs(d):
         r = ctx.tlc("ConnStream", "ConnStream_mc.cfg", workers=2, expect_ok=False, count=False, timeout=900,
-                    consts=dict(B=2, Dev=d, Q=1, N=3, LineLens={1, 3, 6}, Pickle=False))
+                    consts=dict(B=2, Dev=d, Q=1, N=3, LineLens={1, 3, 6}, Pickle=d.startswith("pfx_")))
         if r["violated"] not in ("StreamIsHandOffOrder", "AcceptedBytesInOrder", "AtRest", "Conservation"):
             raise Machinery("deviation %s of ConnStream.tla is not rejected (vacuity); log %s" % (d, r["log"]))
         return d
@@ -320,10 +320,10 @@ def e2e_settings(ctx):
     base = [
         # iobuf, connbuf, flushms, pickle
         (1, 100, 1, False), (3, 1, 5, False), (7, 10, 50, False), (64, 30, 2, False), (4096, 100, 10, False),
-        (2, 3, 1, False), (16, 50, 3, True), (1, 5, 20, True),
+        (2, 3, 1, False), (16, 50, 3, True), (1, 5, 20, True), (4096, 100, 10, True),
     ]
     runs = []
-    nruns = ctx.pick(8, 60)
+    nruns = ctx.pick(9, 60)
     for r in range(nruns):
         if r < len(base):
             iobuf, connbuf, flushms, pickle = base[r]
@@ -337,6 +337,8 @@ def e2e_settings(ctx):
         lens = sorted({x for x in cand if lo <= x <= 20000})
         if iobuf >= 1000:       # mostly ordinary metric lines, a few that exceed the buffer
             lens = [30, 45, 70, 90, 70, 30, 45] + lens
+        if pickle:              # "whatever the line lengths": pickles of a few hundred bytes up to some kB in every pickle run,
+            lens = lens + [200, 230, 250, 256, 300, 700, 2000]      # whatever the I/O buffer (frame = prefix + ~30 B + name)
         runs.append(dict(r=r, iobuf=iobuf, connbuf=connbuf, flushms=flushms, pickle=pickle, n=n, lens=lens,
                          burst=rng.choice([2, 8, 40, max(2, 2 * connbuf)]), pauseus=rng.choice([50, 300, 2000]),
                          manflush=rng.choice([0, 0, 7, 50])))
@@ -556,7 +558,7 @@ def run(ctx):
                    "answers incl. errors and short writes) that reach the underlying writer at least once, replayed on "
                    "destination.Writer with every (nn, err, Buffered, Available, wire) compared to the TLC-computed value; plus "
                    "distinct (iobuf, connbuf, flush, mode) settings of real destinations whose loopback byte stream "
-                   "(lines of 5 B .. 5 x iobuf) was accepted by ConnStreamTrace.tla")
+                   "(lines of 5 B .. 5 x iobuf; pickle runs also lines of 200 .. 2000 B whatever the iobuf) was accepted by ConnStreamTrace.tla")
     if behs:
         b = next((b for b in behs if any(s["e"] for c in b["calls"] for s in c["script"])), behs[0])
         ctx.sample(dict(replayed_behaviour=dict(B=b["B"], calls=[dict(op=c["op"], len=c["len"], script=c["script"], nn=c["nn"],
